@@ -103,6 +103,15 @@ def build_runs(cid: str, seed, site, quick: bool, rng, uid: int):
             variants = rest[:11] + ctl
         for E, I, sp in variants:
             add(E, I, sp)
+        if kind == "inc":
+            # a file that ends, without a final newline, in its last site; only that line is included
+            text0, lines0 = progs[0]
+            cut = "\n".join(text0.split("\n")[: lines0[-1]])
+            if seeds.compiles(cut):
+                rel = f"nonl{uid}.py"
+                files[rel] = cut  # no final newline
+                metas[rel] = {"sites": lines0, "E": [], "I": [lines0[-1]], "spelling": "rel-nofinalnl", "kind": kind}
+                inc.append((rel, lines0[-1], "rel"))
         # the same file name at two levels: a relative pattern names the path from the target, so it concerns the
         # top-level file only; and a glob that has to cross several directories
         text, lines = progs[0]
@@ -160,11 +169,13 @@ def run(chk: Check) -> None:
                 expected[owners[st["k"] - 1]] = sorted(st["exp"])
     scenarios = []
     for ri, r in enumerate(all_runs):
-        argv = ["{dir}", "--output", "{out}", "--codemod-include", r["codemod"]]
+        # every other run names the target in a non-canonical way (a `..` component); absolute patterns are spelled alike
+        target = "{dir}" if ri % 2 == 0 else "{dir}/../target"
+        argv = [target, "--output", "{out}", "--codemod-include", r["codemod"]]
         if r["inc_real"]:
-            argv += ["--path-include", ",".join(r["inc_real"])]
+            argv += ["--path-include", ",".join(p_.replace("{dir}", target) for p_ in r["inc_real"])]
         if r["exc_real"]:
-            argv += ["--path-exclude", ",".join(r["exc_real"])]
+            argv += ["--path-exclude", ",".join(p_.replace("{dir}", target) for p_ in r["exc_real"])]
         exp_sites = {rel: expected[(ri, rel)] for rel in r["metas"]}
         scenarios.append({
             "id": f"C13-{ri}", "files": r["files"],
